@@ -284,9 +284,15 @@ def run_case(spec):
                         viol.append(V('_initialize_metric_mahalanobis', 'random_spd', "'random' is not a symmetric positive definite (d,d) matrix", tr))
                     if ret_inv and np.abs(a[1].dot(A0) - np.eye(d)).max() > 1e-8:
                         viol.append(V('_initialize_metric_mahalanobis', 'random_inverse', 'returned inverse is not the inverse', tr))
-                    # array
+                    # array (C-ordered, and Fortran-ordered below)
                     S = data.spd(d)
                     S0 = S.copy()
+                    SF = np.asfortranarray(S0.copy())
+                    rF = I(inp, SF, strict_pd=strict, return_inverse=ret_inv)
+                    MF = rF[0] if ret_inv else rF
+                    if not np.array_equal(MF, S0) or not np.array_equal(SF, S0):
+                        viol.append(V('_initialize_metric_mahalanobis', 'array_as_given', 'a Fortran-ordered array prior is not used as given '
+                                      '(or was modified)', tr + ['fortran']))
                     r = I(inp, S, strict_pd=strict, return_inverse=ret_inv)
                     M = r[0] if ret_inv else r
                     if not np.array_equal(M, S0) or not np.array_equal(S, S0):
